@@ -62,7 +62,7 @@ def handle_violation(ctx, sig, what, replay, confirm=None):
             return "flaky"
     ctx.violations.append((sig, path))
     print(f"VIOLATION property={ctx.pid} replay={path}", flush=True)
-    print(f"  signature: {sig}\n  what: {what}", flush=True)
+    print(f"  signature: {sig}\n  what: " + " | ".join(str(what).split("\n"))[:400], flush=True)
     return "violation"
 
 
